@@ -55,6 +55,7 @@ type Contract struct {
 	Inline      bool
 	Uses        []string
 	Missing     bool
+	Nonlinear   bool
 	AssumeFrame string
 	Fn          *ssa.Function
 }
@@ -150,7 +151,7 @@ func LoadContracts(cs *ContractSet, pkgPath, file string) error {
 		line int
 	}
 	var logical []ll
-	kw := regexp.MustCompile(`^(func|property|safety|requires|ensures|mustfail|assume|modifies|loop|trusted|assert|pred|implementers|axiom|lemma|fresh|pure|declare|inline|nopanic|uses|global|assumeframe)\b`)
+	kw := regexp.MustCompile(`^(func|property|safety|requires|ensures|mustfail|assume|modifies|loop|trusted|assert|pred|implementers|axiom|lemma|fresh|pure|declare|inline|nopanic|uses|global|assumeframe|nonlinear)\b`)
 	for i, l := range lines {
 		t := strings.TrimSpace(l)
 		if !strings.HasPrefix(t, "//@") {
@@ -273,6 +274,8 @@ func LoadContracts(cs *ContractSet, pkgPath, file string) error {
 				cur.Fresh = true
 			case "pure":
 				cur.Pure = true
+			case "nonlinear":
+				cur.Nonlinear = true
 			case "assumeframe":
 				cur.AssumeFrame = rest
 				if rest == "" {
